@@ -261,3 +261,18 @@ Definition err_justified (alg : N) (sh : input_shape) (p0 : list N) (code a b : 
 
 Definition check_C20_err (alg : N) (sh : input_shape) (p0 : list N) (code a b : N) (after : list N) : bool :=
   err_justified alg sh p0 code a b && ids_eqb after p0.
+
+(* What the harness observed of a call, and the whole property as a checker on
+   it, computed from the INPUT SHAPE alone (never from a guard list): when a
+   clause of the property applies, the only acceptable observation is an error
+   promised by an applicable clause, with the array as it was.  Ok, any other
+   error, a panic, a hang or a modified array are rejections. *)
+Inductive observed := ObsOk | ObsErr (code a b : N) | ObsPanic | ObsHang.
+
+Definition check_C20 (alg : N) (sh : input_shape) (p0 : list N) (obs : observed) (after : list N) : bool :=
+  if violation alg sh p0 then
+    match obs with
+    | ObsErr code a b => check_C20_err alg sh p0 code a b after
+    | _ => false
+    end
+  else true.
